@@ -95,8 +95,8 @@ Print Assumptions c09_record_roundtrip_partial.
    sample columns; parse_record_buf; the lazy vcf::Record with every accessor forced).  Every
    record of rec_ok that the writer accepts is read back by BOTH readers as canon of the record
    (REF bases resolved the way the writer resolves them, first genotype phasing derived before
-   4.4, a sample that is "." as a whole read as a sample without values), the lazy record does
-   not hit the known accessor panic, and the re-read record has the written record's span.
+   4.4, a sample that is "." as a whole read as a sample without values), the line is
+   outside the class of the former lazy-reader panic, and the re-read record has the written record's span.
    rec_ok lists what the writer does not check itself: IDs non-empty / not the lone "." / distinct,
    REF non-empty, ALT and FILTER not [""] or ["."], QUAL in FOK, INFO keys distinct and values of
    the key's effective definition (or Flag / String under an undefined key), the sample count of
@@ -112,7 +112,7 @@ Theorem c09_record_line_roundtrip :
   rec_ok fmt_float FOK h r -> write_line fmt_float h r = Some t ->
   read_eager prs_float h t = Some (canon h r) /\
   read_lazy prs_float h t = Some (canon h r) /\
-  lazy_panics t = false.
+  lazy_cr_class t = false.
 Proof. exact line_roundtrip. Qed.
 Print Assumptions c09_record_line_roundtrip.
 
@@ -165,16 +165,18 @@ Proof.
 Qed.
 Print Assumptions c09_line_witnesses.
 
-(* KNOWN DEFECT lazy-record-cr-before-empty-last-column-panic: a line whose INFO column ends with
-   CR and is followed by TAB LF makes the lazy record's info()/samples() panic (the eager reader
-   reads it, and so does the lazy one when the terminator is CR LF); no written line is in this
-   class (c09_record_line_roundtrip) *)
-Theorem c09_lazy_panic_refuted :
-  exists line, lazy_panics line = true /\ read_lazy_p w_prs (h0 0) (line ++ [10]) = Panic /\
-    (exists rl, read_lazy_p w_prs (h0 0) (line ++ [13; 10]) = Ok rl) /\
-    exists re, read_eager w_prs (h0 0) line = Some re.
-Proof. eexists. exact witness_lazy_panic. Qed.
-Print Assumptions c09_lazy_panic_refuted.
+(* FORMER DEFECT lazy-record-cr-before-empty-last-column-panic (repaired, fb10cd9): a line whose INFO
+   column ends with CR and is followed by TAB LF made the lazy record's accessors panic.  The
+   model of the repaired reader has no such outcome for any text (read_lazy_text is total into
+   option: Err or a record); the former witness is now an example of the correct result, for LF
+   and for CR LF, equal to the eager reader's; a recurrence shows as a model/implementation
+   mismatch and as the oracle tag of the same name *)
+Example c09_lazy_cr_class_reads :
+  exists line r, lazy_cr_class line = true /\
+    read_lazy_text w_prs (h0 0) (line ++ [10]) = Some r /\
+    read_lazy_text w_prs (h0 0) (line ++ [13; 10]) = Some r /\
+    read_eager_text w_prs (h0 0) (line ++ [10]) = Some r.
+Proof. eexists; eexists. exact witness_lazy_cr_class. Qed.
 
 (* VCF 4.5 span: exactly where INFO SVLEN decides the end (the input class of the known finding
    vcf45-svlen-end-one-base-short-of-spec, property C04): without FORMAT LEN and with largest
